@@ -3,11 +3,13 @@
 From Coq Require Import List NArith ZArith.
 From Coq.Strings Require Import Byte.
 From Coq Require Import Extraction ExtrOcamlBasic.
-From GI Require Import Lib.Bytes Gen.TsBatchConsts TsBatch.TsBatch TsDeadline.TsDeadline TsDeadline.TsTimed.
+From GI Require Import Lib.Bytes Gen.TsBatchConsts TsBatch.TsBatch TsBatch.TsCleanup TsDeadline.TsDeadline TsDeadline.TsTimed TsDeadline.TsRuns.
 Extraction Language OCaml.
 Extraction "extracted/tsbatch/model.ml" Byte.of_N Byte.to_N
   run init start alone step round_robin steps_bound initial_env setup_tree expected_node host_reads remove_all
   defer_regs defer_runs bg_started bg_gone bg_waited is_done all_done
   grace ctx_timeout ctx_deadline fg_kill_delay fg_params wos fg_exec uexec uparams_of ugood reach closed all_params
   texec tinit fg_tpar obligations
-  timed_out_message min_grace grace_divisor grace_reserve.
+  timed_out_message min_grace grace_divisor grace_reserve
+  remove_all_at remove_all_now remove_all_chmods_dirs_only gget rm_path symlink_at
+  run_calls run_calls_now single_call wos_return fg_exec_gen interrupt_error_wins grace_period_is_local.
